@@ -348,8 +348,8 @@ fn build(c: &Case) -> Result<Built, (String, String)> {
             let consistency_d = CL_TABLE[*consistency as usize % 11].0;
             let serial_d = serial.map(|local| if local { SerialConsistency::LocalSerial } else { SerialConsistency::Serial });
             let made = if *typed_path {
-                // the contexts are not consulted by `CellsRow`; one (empty) context per value list
-                let contexts = (0..typed_rows.len()).map(|_| RowSerializationContext::empty());
+                // the contexts are not consulted by `CellsRow`; one (empty) context per statement, as the session builds them
+                let contexts = (0..stmts.len()).map(|_| RowSerializationContext::empty());
                 let b = Batch {
                     statements: Cow::Borrowed(bstmts.as_slice()),
                     batch_type: batch_type_d,
